@@ -830,6 +830,7 @@ func Run(r *mc.Run) {
 
 	typesScenario(r)
 	longScenario(r)
+	shapeScenario(r)
 
 	// the library's own typed documents as struct values
 	c10.AddRemarshalScenario(r, r.Pick(1, 2))
@@ -1005,6 +1006,13 @@ func Replay(scenario string, raw json.RawMessage) []*mc.Violation {
 	}
 	if scenario == c10.RemarshalScenario {
 		return c10.ReplayRemarshal(raw)
+	}
+	if scenario == "struct-shapes" {
+		var in ShapeIn
+		if mc.UnmarshalInput(raw, &in) == nil {
+			return checkShape(scenario, in)
+		}
+		return nil
 	}
 	if scenario == "long-lists" {
 		var in LongIn
